@@ -491,11 +491,15 @@ func parseField(v reflect.Value, data []byte, initOffset int, info *fieldInfo) (
 		v.Set(reflect.MakeSlice(sliceType, 0, datalen))
 		single := reflect.New(sliceType.Elem())
 		for innerOffset := 0; innerOffset < len(inner); {
-			var err error
-			innerOffset, err = parseField(single.Elem(), inner, innerOffset, nil)
+			next, err := parseField(single.Elem(), inner, innerOffset, nil)
 			if err != nil {
 				return offset, err
 			}
+			if next == innerOffset {
+				// An element that occupies no bytes never uses up the vector's data.
+				return offset, structuralError{info.fieldName(), "zero-size vector element type: " + sliceType.Elem().String()}
+			}
+			innerOffset = next
 			v.Set(reflect.Append(v, single.Elem()))
 		}
 		return offset, nil
@@ -691,8 +695,13 @@ func marshalField(out *bytes.Buffer, v reflect.Value, info *fieldInfo) error {
 		// General version: use a separate Buffer to write the slice entries into.
 		var innerBuf bytes.Buffer
 		for i := 0; i < v.Len(); i++ {
+			before := innerBuf.Len()
 			if err := marshalField(&innerBuf, v.Index(i), nil); err != nil {
 				return err
+			}
+			if innerBuf.Len() == before {
+				// Elements that occupy no bytes cannot be counted when decoding.
+				return structuralError{info.fieldName(), "zero-size vector element type: " + sliceType.Elem().String()}
 			}
 		}
 
